@@ -93,7 +93,7 @@ def gen_enum_case(g, cid, opts=None):
             elif roll < 0.45:
                 f.desig = "expr"
             f.k_owned = g.mark()
-            f.k_ref = g.mark() if g.chance(0.5) else f.k_owned
+            f.k_ref = g.mark() if (g.chance(0.5) and not (opts or {}).get("uniform")) else f.k_owned
             f.ref_form = "deref" if (f.ty != "String" and g.chance(0.5)) else "clone"
         # S-only payload fields (ghost with default), kept last so that positions coincide
         if v.tshape != "unit" and v.fields and g.chance(0.25) and v.hint is None:
@@ -187,13 +187,15 @@ def render_enum_module(ec, g, fallible, draws):
     names = []
     todo = set(kinds)
     shorts = [(k, v) for k, v in TRAIT_SHORT.items() if k != "into_existing"]
-    r.shuffle(shorts)
+    import random as _random
+    rr = _random.Random(ec.cid)      # same instruction names in the infallible and the fallible twin
+    rr.shuffle(shorts)
     for sh, ks in shorts:
-        if set(ks) <= todo and g.chance(0.6):
+        if set(ks) <= todo and rr.random() < 0.6:
             names.append(sh)
             todo -= set(ks)
     names += sorted(todo)
-    r.shuffle(names)
+    rr.shuffle(names)
     sfb = f"S::{ec.fallback_s.name}"
     tfb = f"T::{ec.fallback_t.tname}"
     from .model import kinds_of
@@ -364,7 +366,7 @@ def render_enum_module(ec, g, fallible, draws):
         L.append(f"#[allow(unreachable_code, unused_variables)] fn ref_{nm}(s: &S) -> {'Result<T, super::Er>' if fallible else 'T'} {{ {wrap('match s { ' + ' '.join(arms) + ' }')} }}")
     # driver: every variant of each side x draws
     tag = f"c{ec.cid}{'f' if fallible else 'i'}"
-    D = ["pub fn run(log: &mut crate::rt::Log) {", f"    let mut r = crate::rt::Rng::new({ec.cid * 2 + (1 if fallible else 0) + 5000});", f"    for d in 0..{draws}usize {{"]
+    D = ["pub fn run(log: &mut crate::rt::Log) {", f"    let mut r = crate::rt::Rng::new({ec.cid + 5000});", f"    for d in 0..{draws}usize {{"]
     svals = []
     for v in ec.vs:
         if v.shape == "unit":
